@@ -449,7 +449,7 @@ def run(ctx):
         ]:
             total += run_grid(ctx, lim, rng, g, budget)
         # ---- exhaustive small grids
-        top1, top2, top3 = ctx.n(12, 12), ctx.n(6, 12), ctx.n(2, 6)
+        top1, top2, top3 = ctx.n(12, 12), ctx.n(6, 12), ctx.n(2, 7)
         grids = [[a] for a in range(1, top1 + 1)]
         grids += [[a, b] for a in range(1, top2 + 1) for b in range(1, top2 + 1)]
         grids += [[a, b, c] for a in range(1, top3 + 1) for b in range(1, top3 + 1) for c in range(1, top3 + 1)]
@@ -459,7 +459,7 @@ def run(ctx):
                      "cubic_setting": len(set(L)) == 1 and rng.random() < 0.5}
                 total += run_grid(ctx, lim, rng, g, budget)
         # ---- random grids
-        for _ in range(ctx.n(120, 1000)):
+        for _ in range(ctx.n(120, 1500)):
             total += run_grid(ctx, lim, rng, gen_grid(rng, ctx.n(1500, 4000)), budget)
     finally:
         setting.reset()
